@@ -69,27 +69,63 @@ def iris_of(t, out: list) -> None:
 
 
 # ------------------------------------------------------------------ generic
-def to_generic(t):
+class OtherStr(str):
+    """A str subclass that compares and hashes on its own terms, the way rdflib.URIRef / rdflib.Literal do
+    (URIRef("x") != "x", different hash): the text a caller takes from a vocabulary constant or another
+    library instead of typing it."""
+    __slots__ = ()
+
+    def __eq__(self, other):
+        return type(other) is OtherStr and str.__eq__(self, other)
+
+    def __ne__(self, other):
+        return not self.__eq__(other)
+
+    def __hash__(self):
+        return hash(("OtherStr", str.__str__(self)))
+
+
+class AlternateSpelling:
+    """Every second occurrence of a string is handed over as an OtherStr of the same text."""
+
+    def __init__(self):
+        self.seen: dict = {}
+
+    def __call__(self, s):
+        if s is None:
+            return None
+        n = self.seen.get(s, 0)
+        self.seen[s] = n + 1
+        return OtherStr(s) if n % 2 == 1 else s
+
+
+def to_generic(t, w=None):
     from pyjelly.integrations.generic import generic_sink as gs
     k = t[0]
+    if w is None:
+        w = _same
     if k == "iri":
-        return gs.IRI(t[1])
+        return gs.IRI(w(t[1]))
     if k == "bnode":
-        return gs.BlankNode(t[1])
+        return gs.BlankNode(w(t[1]))
     if k == "lit":
-        return gs.Literal(t[1], t[2], t[3])
+        return gs.Literal(t[1], w(t[2]), w(t[3]))
     if k == "triple":
-        return gs.Triple(to_generic(t[1]), to_generic(t[2]), to_generic(t[3]))
+        return gs.Triple(to_generic(t[1], w), to_generic(t[2], w), to_generic(t[3], w))
     if k == "default":
         return gs.DefaultGraph
     raise ValueError(t)
 
 
-def stmt_to_generic(st):
+def _same(s):
+    return s
+
+
+def stmt_to_generic(st, w=None):
     from pyjelly.integrations.generic import generic_sink as gs
     if len(st) == 3:
-        return gs.Triple(*(to_generic(t) for t in st))
-    return gs.Quad(*(to_generic(t) for t in st))
+        return gs.Triple(*(to_generic(t, w) for t in st))
+    return gs.Quad(*(to_generic(t, w) for t in st))
 
 
 def from_generic(o):
